@@ -31,6 +31,11 @@ META = {
         text="C03_unpack (success implies the recomputed prefilter hash equals the requested id), C03_mismatch (parses but differs => exactly hash-mismatch), C03_corrupt_never_ok, C03_mirror (Commit only after a matching scan) are proved for every header list, filter, filesystem and hash function. The model is compared with the real Unpack and Mirror on wares altered after they were stored.",
         note="Trusted: Lean kernel; archive/tar + gzip decoding (the harness decodes the altered bytes for the model); the fetch stream.",
     ),
+    "C09": dict(
+        technique="Lean 4 invariant proof over the cache-protocol transition system (any number of processes, any schedule, crash = stop) + schedule-forcing differential correspondence",
+        text="C09_inv: for every number of processes, every interleaving of their protocol steps and every crash point, every shelf holds exactly the complete fileset it is named after; C09_clean: a returned process leaves no temp dir; C09_fail_adds_nothing; C09_race_loser_succeeds. The transition system is validated against the real cache code by forcing random schedules on goroutines with a barrier in the cache.* hooks.",
+        note="Trusted: Lean kernel; freshness of guid names; atomic rename; the unpack tool's contract (C03/C02). Not exhibited: preemption inside a step, power loss.",
+    ),
     "C12": dict(
         technique="Lean 4 theorems (filter = documented per-attribute rule; pack with filter = lossless pack of filtered fileset) + differential correspondence",
         text="C12_pack_entry / C12_reject_iff / C12_only_named / C12_flatten / C12_pack / C12_cli_stack are proved for every filter setting and every entry (no enumeration). The Lean filter functions are compared with filters.Apply*Filter on all complete settings x an entry zoo, and end to end through unpackTar.",
